@@ -98,20 +98,6 @@ Definition check_inline (c : list (Z * mcell) * list Z * res (list (Z * mcell)))
   res_eqb dic_eqb (inline_cells 60 ti dic) expected.
 
 (* (h) pot_fill on every level-0 cell with a FILL, in dict order *)
-Fixpoint fill_all (fd fg : bool) (dic0 : list (Z * mcell)) (keys : list Z)
-    (st : list (Z * mcell) * Z) : res (list (Z * mcell) * Z) :=
-  match keys with
-  | [] => Ok st
-  | k :: r =>
-      match pot_fill 40 fd fg dic0 k st with
-      | Err e => Err e
-      | Ok (_, st') => fill_all fd fg dic0 r st'
-      end
-  end.
-
-Definition fill_keys (dic : list (Z * mcell)) : list Z :=
-  map fst (filter (fun kv => match cfill (snd kv) with Some _ => Z.eqb (cuniv (snd kv)) 0 | None => false end) dic).
-
 Definition check_fill (c : bool * bool * list (Z * mcell) * Z * res (list (Z * mcell) * Z)) : bool :=
   let '(fd, fg, dic, counter, expected) := c in
-  res_eqb (pair_eqb dic_eqb Z.eqb) (fill_all fd fg dic (fill_keys dic) (dic, counter)) expected.
+  res_eqb (pair_eqb dic_eqb Z.eqb) (fill_loop 40 fd fg dic (fill_keys dic) (dic, counter)) expected.
